@@ -1,10 +1,99 @@
-import NeumannModel.Graph.Lemmas
+import NeumannModel.Graph.DeleteNode
+import NeumannModel.Graph.Query
 /-
   C05 — property theorems for the graph store model.  ONLY property statements and their
   non-vacuity examples live here; helpers are in `Lemmas.lean`.
 -/
 namespace Neumann.Graph.Props
 open Neumann.Graph
+
+def twoNodesEdgeS : St := applyAll St.empty [.createNode 0 0, .createNode 0 0, .createEdge 1 2 true 0 0]
+
+/-! ### sequential: every operation sequence -/
+
+/-- `Inv s` = `WF s.kv` + ids above the counters are unused + an existing node has both list keys.
+    The empty store satisfies it; every operation preserves it, so it holds after EVERY sequence of
+    create/delete/update operations (self-loops, parallel and undirected edges, unknown ids,
+    any iteration order of `delete_node`'s edge set, both of its code paths). -/
+theorem wf_preserved (ops : List Op) (s : St) (h : Inv s) :
+    Inv (applyAll s ops) ∧ WF (applyAll s ops).kv :=
+  ⟨inv_applyAll ops s h, (inv_applyAll ops s h).wf⟩
+
+theorem wf_of_any_history (ops : List Op) : WF (applyAll St.empty ops).kv :=
+  (wf_preserved ops St.empty inv_empty).2
+
+example : Inv (applyAll St.empty [.createNode 0 0, .createNode 0 0, .createEdge 1 2 false 0 0,
+    .createEdge 1 1 true 0 0, .createEdge 1 2 true 1 0, .deleteEdge 2]) :=
+  (wf_preserved _ _ inv_empty).1
+
+/-- `delete_node(id)` on an existing node of a reachable store succeeds (whatever order the edge set
+    is iterated in, whichever code path), removes the node, removes EXACTLY the edges listed by the
+    node (= its incident edges, by `WF`), and afterwards no remaining edge touches `id`. -/
+theorem delete_node_removes_incident_edges (s : St) (h : Inv s) (id : Nat) (hint : List Nat)
+    (hex : nodeEx s.kv id = true) :
+    (apply s (.deleteNode id hint)).1 = .ok ∧
+    nodeEx (apply s (.deleteNode id hint)).2.kv id = false ∧
+    (∀ e r, edgeAt s.kv e = some r → (r.src = id ∨ r.dst = id) →
+        edgeAt (apply s (.deleteNode id hint)).2.kv e = none) ∧
+    (∀ e r, edgeAt s.kv e = some r → r.src ≠ id → r.dst ≠ id →
+        edgeAt (apply s (.deleteNode id hint)).2.kv e = some r) ∧
+    (∀ e r, edgeAt (apply s (.deleteNode id hint)).2.kv e = some r → r.src ≠ id ∧ r.dst ≠ id) ∧
+    (∀ n, n ≠ id → nodeEx (apply s (.deleteNode id hint)).2.kv n = nodeEx s.kv n) := by
+  obtain ⟨hok, hinv, hN, hE⟩ := deleteNode_main PARALLEL_THRESHOLD s id hint h hex
+  simp only [apply, Op.prog, deleteNodeProg]
+  refine ⟨hok, by rw [hN]; simp, ?_, ?_, ?_, ?_⟩
+  · intro e r hr ht
+    rw [hE]
+    obtain ⟨_, _, h3, h4, _⟩ := h.wf.edge_listed e r hr
+    rcases ht with rfl | rfl
+    · simp [h3]
+    · simp [h4]
+  · intro e r hr h1 h2
+    rw [hE]
+    have ho : e ∉ outL s.kv id := by
+      intro hm; obtain ⟨r', hr', ht⟩ := h.wf.out_sound id e hm
+      rw [hr] at hr'; cases hr'; rcases ht with ht | ⟨_, ht⟩ <;> contradiction
+    have hi : e ∉ inL s.kv id := by
+      intro hm; obtain ⟨r', hr', ht⟩ := h.wf.in_sound id e hm
+      rw [hr] at hr'; cases hr'; rcases ht with ht | ⟨_, ht⟩ <;> contradiction
+    simp [ho, hi, hr]
+  · intro e r hr
+    obtain ⟨h1, h2, _⟩ := hinv.wf.edge_listed e r hr
+    rw [hN] at h1 h2; simp at h1 h2; exact ⟨h1.2, h2.2⟩
+  · intro n hn; rw [hN]; simp [hn]
+
+example : nodeEx twoNodesEdgeS.kv 2 = true := by decide
+
+/-- `neighbors(n, edge_type, direction)` returns exactly the nodes adjacent to `n` through an existing
+    edge of that type in that direction (an undirected edge counts in both directions, a self-loop
+    never makes a node its own neighbour), ascending and without repetition. -/
+theorem neighbors_spec (m : KV) (h : WF m) (n : Nat) (dir : Dir) (ty : Option Nat)
+    (hn : nodeEx m n = true) :
+    ∃ l, neighbors m n dir ty = some l ∧ l.Pairwise (· < ·) ∧
+      ∀ x, x ∈ l ↔ (x ≠ n ∧ Adjacent m n dir ty x) :=
+  neighbors_char h dir ty hn
+
+theorem neighbors_missing_node (m : KV) (n : Nat) (dir : Dir) (ty : Option Nat)
+    (hn : nodeEx m n = false) : neighbors m n dir ty = none := by
+  simp [neighbors, hn]
+
+/-- `out_degree / in_degree / degree` count exactly the existing edges incident to `n`
+    (for ANY duplicate-free enumeration `lo` / `li` of them; an undirected edge and a self-loop
+    count once outgoing and once incoming). -/
+theorem degree_spec (m : KV) (h : WF m) (n : Nat) (hn : nodeEx m n = true) (lo li : List Nat)
+    (hlo : lo.Nodup) (hli : li.Nodup)
+    (ho : ∀ e, e ∈ lo ↔ OutIncident m n e) (hi : ∀ e, e ∈ li ↔ InIncident m n e) :
+    outDegree m n = some lo.length ∧ inDegree m n = some li.length ∧
+    degree m n = some (lo.length + li.length) := by
+  have e1 : (outL m n).length = lo.length :=
+    length_eq_of_nodup_mem (h.out_nodup n) hlo (fun a => by rw [mem_outL_iff h, ho])
+  have e2 : (inL m n).length = li.length :=
+    length_eq_of_nodup_mem (h.in_nodup n) hli (fun a => by rw [mem_inL_iff h, hi])
+  simp [outDegree, inDegree, degree, hn, e1, e2]
+
+example : WF twoNodesEdgeS.kv ∧ neighbors twoNodesEdgeS.kv 1 .outgoing none = some [2] ∧
+    degree twoNodesEdgeS.kv 1 = some 1 :=
+  ⟨wf_of_any_history _, by decide, by decide⟩
 
 /-! ### concurrent: the full statement `QuiescentWF` is FALSE of the current step lists -/
 
